@@ -867,3 +867,212 @@ pub fn c09_offer_one() {
     std::mem::forget(m);
     std::mem::forget(config);
 }
+
+// ------------------------------------------------------------------ lean variants (quick tier)
+//
+// Same relations as above with *concrete identifiers* (info hash, peer ids, offer ids are fixed
+// distinct constants; which of them a request uses is still the solver's choice). Identifier
+// values never enter any decision except through equality, so this loses the "arbitrary id
+// bytes" quantification only; owners, events, left, clock, ages, deadlines stay symbolic. The
+// 20-byte symbolic comparisons are what make the general harnesses take 10-15 minutes and 40 GB.
+
+const H0: [u8; 20] = [7; 20];
+const P_STORED: [u8; 20] = [1; 20];
+const P_OTHER: [u8; 20] = [2; 20];
+const O1: [u8; 20] = [5; 20];
+const O2: [u8; 20] = [6; 20];
+
+fn lean_stored() -> [WEnt; 1] {
+    let mut e = any_went();
+    e.pid = P_STORED;
+    e.exp_from = if kani::any() { P_OTHER } else { P_STORED };
+    e.exp_offer = if kani::any() { O1 } else { O2 };
+    [e]
+}
+
+/// C08 lean: one stored peer; the request uses either the stored peer id or a fresh one.
+pub fn c08_announce_lean() {
+    let ents = lean_stored();
+    let mut m = mk_map(H0, &ents);
+    let now: u32 = kani::any();
+    let age: u32 = kani::any();
+    kani::assume(now as u64 + age as u64 <= u32::MAX as u64);
+    aquatic_common::verif_shims::set_mock_clock(Some(now));
+    let config = mk_config(2, 4, age, 60, AccessListMode::Off);
+    let mut rng = any_rng();
+    let mut out: Vec<(OutMessageMeta, OutMessage)> = Vec::with_capacity(2);
+    let same_pid: bool = kani::any();
+    let pid = if same_pid { P_STORED } else { P_OTHER };
+    let req = bare_request(H0, pid);
+    let stopped = req.event == Some(AnnounceEvent::Stopped);
+    let seeder = req.bytes_left == Some(0);
+    let c2: u8 = kani::any();
+    let k2: u32 = kani::any();
+    let meta = InMessageMeta { out_message_consumer_id: ConsumerId(c2), connection_id: conn(k2), ip_version: IpVersion::V4, pending_scrape_id: None };
+    m.handle_announce_request(&config, &mut rng, &mut out, aquatic_common::ServerStartInstant::new(), meta, req);
+    let e = ents[0];
+    let foreign = same_pid && (e.consumer, e.conn) != (c2, k2);
+    let t = m.torrents.get(&InfoHash(H0)).unwrap();
+    let stored_after = t.peers.get(&PeerId(P_STORED));
+    if foreign {
+        assert!(out.len() == 0, "announce with a peer id owned by another connection must get no reply");
+        match stored_after {
+            Some(p) => assert!(t.peers.len() == 1 && p.seeder == e.seeder && p.consumer_id.0 == e.consumer && p.connection_id == conn(e.conn) && deadline_is(&p.valid_until, e.deadline), "entry owned by another connection was modified"),
+            None => assert!(false, "entry owned by another connection was removed"),
+        }
+        assert!(t.num_seeders == if e.seeder { 1 } else { 0 }, "cached seeder count inconsistent");
+    } else {
+        let others = if same_pid { 0 } else { 1 };
+        let other_seeders = if !same_pid && e.seeder { 1 } else { 0 };
+        let want_len = if stopped { others } else { others + 1 };
+        let want_seeders = other_seeders + if !stopped && seeder { 1 } else { 0 };
+        assert!(t.peers.len() == want_len, "stored peer count != reference");
+        assert!(t.num_seeders == want_seeders, "cached seeder count != reference");
+        match t.peers.get(&PeerId(pid)) {
+            Some(p) => {
+                assert!(!stopped, "stopped peer still stored");
+                assert!(p.seeder == seeder, "left == 0 <=> seeder violated");
+                assert!(deadline_is(&p.valid_until, now + age), "announce must set deadline = now + max_peer_age");
+                if same_pid {
+                    assert!(p.consumer_id.0 == e.consumer && p.connection_id == conn(e.conn), "owner changed by re-announce");
+                } else {
+                    assert!(p.consumer_id.0 == c2 && p.connection_id == conn(k2), "new entry must be owned by the announcing connection");
+                }
+            }
+            None => assert!(stopped, "announcing peer not stored"),
+        }
+        if !same_pid {
+            match stored_after {
+                Some(p) => assert!(p.seeder == e.seeder && p.consumer_id.0 == e.consumer && p.connection_id == conn(e.conn) && deadline_is(&p.valid_until, e.deadline) && p.expecting_answers.len() == if e.has_exp { 1 } else { 0 }, "another peer's entry changed by announce"),
+                None => assert!(false, "another peer's entry lost by announce"),
+            }
+        }
+        assert!(out.len() == 1, "announce must get exactly one reply");
+        let (om, msg) = &out[0];
+        assert!(om.out_message_consumer_id.0 == c2 && om.connection_id == conn(k2), "reply addressed to the wrong connection");
+        match msg {
+            OutMessage::AnnounceResponse(r) => {
+                assert!(r.complete == want_seeders, "complete != stored seeders (announcer included)");
+                assert!(r.incomplete == want_len - want_seeders, "incomplete != stored leechers (announcer included)");
+            }
+            _ => assert!(false, "announce answered with another message kind"),
+        }
+    }
+    kani::cover!(foreign, "foreign peer id");
+    kani::cover!(same_pid && !foreign && !stopped, "owner re-announces");
+    kani::cover!(same_pid && !foreign && stopped, "owner stops");
+    kani::cover!(!same_pid && !stopped, "new peer");
+    std::mem::forget(out);
+    std::mem::forget(m);
+    std::mem::forget(config);
+}
+
+/// C09 lean: answer from a fresh peer P_OTHER to the stored peer, offer id O1 or O2.
+pub fn c09_answer_lean() {
+    let ents = lean_stored();
+    let mut m = mk_map(H0, &ents);
+    let now: u32 = kani::any();
+    kani::assume(now < u32::MAX - 1000);
+    aquatic_common::verif_shims::set_mock_clock(Some(now));
+    let config = mk_config(2, 4, 100, 60, AccessListMode::Off);
+    let mut rng = any_rng();
+    let mut out: Vec<(OutMessageMeta, OutMessage)> = Vec::with_capacity(2);
+    let to_stored: bool = kani::any();
+    let to = if to_stored { P_STORED } else { [3; 20] };
+    let oid = if kani::any() { O1 } else { O2 };
+    let mut req = bare_request(H0, P_OTHER);
+    kani::assume(req.event != Some(AnnounceEvent::Stopped));
+    req.answer = Some(RtcAnswer { t: RtcAnswerType::Answer, sdp: String::new() });
+    req.answer_to_peer_id = Some(PeerId(to));
+    req.answer_offer_id = Some(OfferId(oid));
+    let c2: u8 = kani::any();
+    let k2: u32 = kani::any();
+    let meta = InMessageMeta { out_message_consumer_id: ConsumerId(c2), connection_id: conn(k2), ip_version: IpVersion::V4, pending_scrape_id: None };
+    m.handle_announce_request(&config, &mut rng, &mut out, aquatic_common::ServerStartInstant::new(), meta, req);
+    let e = ents[0];
+    let expected = to_stored && e.has_exp && e.exp_from == P_OTHER && e.exp_offer == oid;
+    let t = m.torrents.get(&InfoHash(H0)).unwrap();
+    if expected {
+        assert!(out.len() == 2, "answer + announce reply expected");
+        match &out[0] {
+            (om, OutMessage::AnswerOutMessage(a)) => {
+                assert!(om.out_message_consumer_id.0 == e.consumer && om.connection_id == conn(e.conn), "answer must go to the offering peer's connection only");
+                assert!(a.peer_id.0 == P_OTHER && a.offer_id.0 == oid && a.info_hash.0 == H0, "answer payload");
+            }
+            _ => assert!(false, "expected a forwarded answer"),
+        }
+        assert!(t.peers.get(&PeerId(P_STORED)).unwrap().expecting_answers.len() == 0, "answered offer still pending (could be answered twice)");
+    } else if to_stored {
+        assert!(out.len() == 2, "error + announce reply expected");
+        match &out[0] {
+            (om, OutMessage::ErrorResponse(_)) => assert!(om.out_message_consumer_id.0 == c2 && om.connection_id == conn(k2), "error must go back to the answering connection"),
+            (_, OutMessage::AnswerOutMessage(_)) => assert!(false, "answer forwarded without a matching pending offer"),
+            _ => assert!(false, "unexpected message"),
+        }
+        assert!(t.peers.get(&PeerId(P_STORED)).unwrap().expecting_answers.len() == if e.has_exp { 1 } else { 0 }, "unrelated pending offer consumed by a non-matching answer");
+    } else {
+        assert!(out.len() == 1, "answer to an absent peer must produce nothing but the announce reply");
+    }
+    match &out[out.len() - 1] {
+        (_, OutMessage::AnnounceResponse(_)) => {}
+        _ => assert!(false, "last message must be the announce reply"),
+    }
+    kani::cover!(expected, "answer forwarded");
+    kani::cover!(!expected && to_stored, "answer rejected with error");
+    kani::cover!(!to_stored, "answer to absent peer");
+    std::mem::forget(out);
+    std::mem::forget(m);
+    std::mem::forget(config);
+}
+
+/// C09 lean: one offer (id O1) from fresh P_OTHER with the stored peer as only receiver.
+pub fn c09_offer_lean() {
+    let ents = lean_stored();
+    let mut m = mk_map(H0, &ents);
+    let now: u32 = kani::any();
+    kani::assume(now < u32::MAX - 1000);
+    aquatic_common::verif_shims::set_mock_clock(Some(now));
+    let max_offers: usize = kani::any();
+    kani::assume(max_offers <= 2);
+    let config = mk_config(max_offers, 4, 100, 60, AccessListMode::Off);
+    let mut rng = any_rng();
+    let mut out: Vec<(OutMessageMeta, OutMessage)> = Vec::with_capacity(2);
+    let mut offers = Vec::with_capacity(1);
+    offers.push(AnnounceRequestOffer { offer: RtcOffer { t: RtcOfferType::Offer, sdp: String::new() }, offer_id: OfferId(O1) });
+    let mut req = bare_request(H0, P_OTHER);
+    req.offers = Some(offers);
+    let stopped = req.event == Some(AnnounceEvent::Stopped);
+    let c2: u8 = kani::any();
+    let k2: u32 = kani::any();
+    let meta = InMessageMeta { out_message_consumer_id: ConsumerId(c2), connection_id: conn(k2), ip_version: IpVersion::V4, pending_scrape_id: None };
+    m.handle_announce_request(&config, &mut rng, &mut out, aquatic_common::ServerStartInstant::new(), meta, req);
+    let e = ents[0];
+    let want = if stopped || max_offers == 0 { 0 } else { 1 };
+    assert!(out.len() == want + 1, "forwarded offers != min(offers, max_offers, other peers) (+ the announce reply)");
+    match &out[want] {
+        (om, OutMessage::AnnounceResponse(_)) => assert!(om.out_message_consumer_id.0 == c2 && om.connection_id == conn(k2), "announce reply addressed to the wrong connection"),
+        _ => assert!(false, "last message must be the announce reply"),
+    }
+    let t = m.torrents.get(&InfoHash(H0)).unwrap();
+    if want == 1 {
+        match &out[0] {
+            (om, OutMessage::OfferOutMessage(o)) => {
+                assert!(om.out_message_consumer_id.0 == e.consumer && om.connection_id == conn(e.conn), "offer must go to the receiving peer's own connection");
+                assert!(o.peer_id.0 == P_OTHER && o.offer_id.0 == O1 && o.info_hash.0 == H0, "offer must carry the sender's peer id, its offer id and the info hash");
+            }
+            _ => assert!(false, "offer slot holds another message kind"),
+        }
+        let sp = t.peers.get(&PeerId(P_OTHER)).unwrap();
+        assert!(sp.expecting_answers.len() == 1, "exactly one expectation per forwarded offer");
+        let (ea, vu) = sp.expecting_answers.get_index(0).unwrap();
+        assert!(ea.from_peer_id.0 == P_STORED && ea.regarding_offer_id.0 == O1, "expectation must name the receiver and the offer id");
+        assert!(deadline_is(vu, now + 60), "offer expectation deadline = clock + max_offer_age");
+    } else if !stopped {
+        assert!(t.peers.get(&PeerId(P_OTHER)).unwrap().expecting_answers.len() == 0, "expectation recorded although nothing was forwarded");
+    }
+    kani::cover!(want == 1, "offer forwarded");
+    kani::cover!(want == 0 && !stopped, "offer dropped by max_offers 0");
+    std::mem::forget(out);
+    std::mem::forget(m);
+    std::mem::forget(config);
+}
